@@ -300,27 +300,42 @@ class CFG:
         return result
 
     def reach(self, start: Iterable[int], avoid: Iterable[int] = (), labels_excluded: Iterable[str] = (),
-              include_start: bool = False) -> Set[int]:
-        """ nodes reachable from the successors of `start` without entering `avoid` """
+              include_start: bool = False, edges_excluded: Iterable[Tuple[int, Optional[str]]] = (),
+              within: Optional[Set[int]] = None) -> Set[int]:
+        """ nodes reachable from the successors of `start` without entering `avoid`;
+            edges_excluded: (source node, label) pairs that may not be followed;
+            within: if given, only nodes of this set are entered """
         avoid = set(avoid)
         excluded = set(labels_excluded)
+        no_edge = set(edges_excluded)
         seen: Set[int] = set()
         stack = []
         for src in start:
             if include_start and src not in avoid:
                 seen.add(src)
             for dst, label in self.succ[src]:
-                if label not in excluded:
+                if label not in excluded and (src, label) not in no_edge:
                     stack.append(dst)
         while stack:
             cur = stack.pop()
-            if cur in seen or cur in avoid:
+            if cur in seen or cur in avoid or (within is not None and cur not in within):
                 continue
             seen.add(cur)
             for dst, label in self.succ[cur]:
-                if label not in excluded:
+                if label not in excluded and (cur, label) not in no_edge:
                     stack.append(dst)
         return seen
+
+    def guarded_on_all_paths(self, src: int, dst: int, test_nodes_with_label: Iterable[Tuple[int, str]],
+                             within: Optional[Set[int]] = None) -> bool:
+        """ every path src -> dst leaves one of the given test nodes by the given label:
+            there is no path when, at those tests, only the *other* edges may be followed
+            and ... equivalently dst is unreachable once the wanted edges are cut AND
+            dst is unreachable without touching the tests at all. """
+        wanted = set(test_nodes_with_label)
+        # cut the wanted edges: if dst is still reachable, some path avoids them
+        scope = None if within is None else (within | {dst})
+        return dst not in self.reach([src], edges_excluded=wanted, within=scope)
 
     def exists_path(self, src: int, dst: int, avoid: Iterable[int] = (),
                     labels_excluded: Iterable[str] = ()) -> bool:
@@ -328,25 +343,24 @@ class CFG:
         return dst in self.reach([src], set(avoid) - {dst}, labels_excluded)
 
     def find_path(self, src: int, dst: int, avoid: Iterable[int] = ()) -> Optional[List[int]]:
+        """ a shortest path of >= 1 edge from src to dst whose inner nodes avoid `avoid` """
         avoid = set(avoid) - {dst}
         prev: Dict[int, int] = {}
         queue = [src]
-        seen = {src}
+        first = True
         while queue:
             cur = queue.pop(0)
             for nxt, _ in self.succ[cur]:
-                if nxt in avoid or nxt in seen and nxt != dst:
+                if nxt == dst:
+                    path = [dst, cur]
+                    while path[-1] != src:
+                        path.append(prev[path[-1]])
+                    return list(reversed(path))
+                if nxt in avoid or nxt in prev or nxt == src:
                     continue
                 prev[nxt] = cur
-                if nxt == dst:
-                    path = [dst]
-                    while path[-1] != src or len(path) == 1:
-                        path.append(prev[path[-1]])
-                        if path[-1] == src:
-                            break
-                    return list(reversed(path))
-                seen.add(nxt)
                 queue.append(nxt)
+            first = False
         return None
 
     def describe_path(self, path: Optional[List[int]]) -> str:
